@@ -23,6 +23,10 @@ type nilErr struct{ msg string }
 
 func (e *nilErr) Error() string { return e.msg } // panics on a nil receiver
 
+type fieldErr struct{ Fields []string }
+
+func (e fieldErr) Error() string { return fmt.Sprint("invalid fields ", e.Fields) }
+
 type badStringer struct{}
 
 func (badStringer) String() string { panic("String() itself panics") }
@@ -35,7 +39,11 @@ type oshape struct {
 	republish bool
 	// panicOn: event ids on which the handler panics
 	panicOn map[int]bool
-	val     int // 0 string, 1 typed nil error, 2 Stringer whose String panics, 3 error value
+	// 0 string, 1 typed nil error, 2 Stringer whose String panics, 3 error value; values of
+	// types that cannot be compared with == (the same subscription throws two of them, so
+	// that anything that remembers the last one and compares meets its like): 4 slice,
+	// 5 map, 6 an error struct with a slice field; 7 int
+	val int
 	obs     bool
 }
 
@@ -54,6 +62,14 @@ func (in *oinst) value(id int) any {
 		return badStringer{}
 	case 3:
 		return fmt.Errorf("boom-%d", id)
+	case 4:
+		return []string{"boom", fmt.Sprint(id)}
+	case 5:
+		return map[string]int{"boom": id}
+	case 6:
+		return fieldErr{Fields: []string{"boom", fmt.Sprint(id)}}
+	case 7:
+		return id
 	}
 	return fmt.Sprintf("boom-%d", id)
 }
@@ -66,6 +82,8 @@ func describe(v any) string {
 		}
 	case badStringer:
 		return "bad-stringer"
+	case []string, map[string]int, fieldErr, int:
+		return fmt.Sprintf("%T:%v", v, v)
 	case error:
 		return "error:" + x.Error()
 	case string:
@@ -177,6 +195,13 @@ func overlapShapes() []oshape {
 				oshape{name: "async-both-panic" + sfx, async: true, panicOn: both, val: val, obs: obs},
 			)
 		}
+	}
+	for val := 4; val <= 7; val++ {
+		sfx := fmt.Sprintf("/val%d/obs=false", val)
+		l = append(l,
+			oshape{name: "sync-panics" + sfx, panicOn: both, val: val},
+			oshape{name: "async-both-panic" + sfx, async: true, panicOn: both, val: val},
+		)
 	}
 	return l
 }
